@@ -26,6 +26,32 @@ def report(rep, rule, inst, site, term, want=None):
     return True
 
 
+def sample_product(rep, model):
+    """amplitude covariance for recordings stored in narrow integer types: a product of two raw sample values (a square, a dot product) overflows after scaling although no
+    sample does, so a decision taken on it ("is this stretch all zero?") changes with the scale"""
+    import ast
+    from . import common
+    rep.rule('SAMPLE-PRODUCT', 'no function reachable from compute_features multiplies two raw sample values (x * y, x ** 2, np.dot / square / multiply on samples): sums, '
+                               'differences, scalings and comparisons only, which stay exact under a power-of-two scaling in every numeric type that holds the scaled samples')
+    n = 0
+    for q in sorted(common.reachable(model, ['compute_features'])):
+        f = model.funcs[q]
+        sigs = [p for p in f.params if p == 'sig' or p.startswith('sig_')]
+        if not sigs:
+            continue
+        n += 1
+        hits = common.sample_arith(f.node, sigs)['prod']
+        if hits:
+            rep.violation('SAMPLE-PRODUCT', f.name, f'{f.path}:{hits[0][0]} {f.name}', expected='no product of sample values',
+                          found='; '.join(t for _, t in hits[:3]) + ': overflows in int16 / int32 recordings once the samples are scaled up')
+    ex = ast.parse('def f(sig, a, b):\n    seg = sig[a:b]\n    return np.dot(seg, seg) == 0, seg * 2, (b - a) * 2\n').body[0]
+    got = common.sample_arith(ex, ['sig'])['prod']
+    if len(got) == 1 and 'dot' in got[0][1]:
+        rep.ok('SAMPLE-PRODUCT', 'package', '-', found=f'{n} functions taking the signal scanned; embedded example fires on the dot product only')
+    else:
+        rep.unresolved('SAMPLE-PRODUCT', 'embedded example', 'sa/rules/c10.py', f'the taint query no longer behaves as expected: {got}')
+
+
 DIMENSIONLESS_CALLEES = {'check_param_range', 'check_param_options', 'warn'}
 
 
@@ -118,7 +144,7 @@ def check(rep, model, tier):
             ext_units(rep, ctx, f'find_extrema:pad={pad[1]}:{fkn}')
             n += 1
     g = model.find('_find_flank_midpoints')
-    for fl in ('rise', 'decay'):
+    for fl in (('rise', 'decay') if len(g.params) == 6 else ()):
         r, _ = E.run(model, g.qual, {g.params[0]: ('param', 'sig'), g.params[1]: C(fl), g.params[2]: ('param', 'n_flanks'), g.params[3]: ('atom', 'P', 'intarr'),
                                       g.params[4]: ('atom', 'TR', 'intarr'), g.params[5]: ('param', 'bias')})
         report(rep, 'UNIT-CONSISTENT', f'_find_flank_midpoints:{fl}', f'{g.path}:{g.node.lineno} _find_flank_midpoints', r, U.SAMP)
@@ -133,6 +159,7 @@ def check(rep, model, tier):
                                    'f_range': ('param', 'f_range'), 'n_cycles': ('param', 'n_cycles')})
     report(rep, 'UNIT-CONSISTENT', 'compute_band_amp', f'{g.path}:{g.node.lineno} compute_band_amp', r, U.V)
     ext_units(rep, ctx, 'compute_band_amp')
+    sample_product(rep, model)
     # embedded positive examples: the inference must flag these on every run
     sig, fs = ('param', 'sig'), ('param', 'fs')
     col = ('col', 'S', 'period')
